@@ -61,6 +61,10 @@ struct Case {
 	z: u8,
 	tiles: Vec<(u8, u8, PayClass)>,
 	meta: Option<String>,
+	/// read the source from a container written by the harness's encoder (format, layout seed)
+	/// instead of from memory; ignored when that format cannot hold the (format, compression) pair
+	#[serde(default)]
+	source: Option<(Target, u32)>,
 }
 
 fn pay() -> impl Strategy<Value = PayClass> {
@@ -75,8 +79,8 @@ fn pay() -> impl Strategy<Value = PayClass> {
 }
 
 fn strategy() -> impl Strategy<Value = Case> {
-	(0usize..5, 0usize..3, proptest::option::weighted(0.75, 0usize..3), any::<bool>(), 0usize..10, 8u8..14, proptest::collection::vec((0u8..8, 0u8..8, pay()), 1..6), proptest::option::weighted(0.8, vt::gen::meta_doc()))
-		.prop_map(|(t, s, tc, force, f, z, tiles, meta)| {
+	(0usize..5, 0usize..3, proptest::option::weighted(0.75, 0usize..3), any::<bool>(), 0usize..10, 8u8..14, proptest::collection::vec((0u8..8, 0u8..8, pay()), 1..6), proptest::option::weighted(0.8, vt::gen::meta_doc()), proptest::option::weighted(0.4, (0usize..5, any::<u32>())))
+		.prop_map(|(t, s, tc, force, f, z, tiles, meta, source)| {
 			let target = Target::ALL[t];
 			let source_comp = Comp::ALL[s];
 			let mut target_comp = tc.map(|i| Comp::ALL[i]);
@@ -106,7 +110,8 @@ fn strategy() -> impl Strategy<Value = Case> {
 					}
 				}
 			}
-			Case { target, format, source_comp, target_comp, force, z, tiles, meta }
+			let source = source.map(|(i, seed)| (Target::ALL[i], seed)).filter(|(t, _)| t.accepts(format, source_comp));
+			Case { target, format, source_comp, target_comp, force, z, tiles, meta, source }
 		})
 }
 
@@ -119,14 +124,26 @@ fn oracle(case: &Case, obs: &mut Obs) -> Result<(), Fail> {
 	let stored: BTreeMap<Coord, Vec<u8>> = raw.iter().map(|(c, b)| (*c, util::compress(b, case.source_comp))).collect();
 	let mut set = TileSet { format: case.format, comp: case.source_comp, tiles: stored, raw: raw.clone(), pyramid: BTreeMap::new(), meta: case.meta.clone() };
 	set.pyramid = set.all_boxes();
-	let src = MemReader::new(&set, "mem");
+	let mut guards: Vec<TmpGuard> = vec![];
+	let src: Box<dyn versatiles_core::types::TilesReaderTrait> = match case.source {
+		Some((t, seed)) if t.accepts(case.format, case.source_comp) => {
+			let p = vt::sources::encode_fixture(&set, t, seed)?;
+			guards.push(TmpGuard(p.clone()));
+			obs.label(format!("source:harness-written-{}", t.name()));
+			open_with_repo(&p)?
+		}
+		_ => {
+			obs.label("source:memory");
+			Box::new(MemReader::new(&set, "mem"))
+		}
+	};
 	let out_comp = case.target_comp.unwrap_or(case.source_comp);
 
 	let path = case.target.fresh_path();
 	let _g = TmpGuard(path.clone());
 	let cp = TilesConverterParameters::new(case.target_comp.map(|c| c.to_vt()), None, case.force, false, false);
 	let p = path.to_str().unwrap().to_string();
-	match guard(|| util::block_on(convert_tiles_container(Box::new(src), cp, &p))) {
+	match guard(|| util::block_on(convert_tiles_container(src, cp, &p))) {
 		Ok(Ok(())) => {}
 		Ok(Err(e)) => fail!("recompress:convert-error", "conversion {:?}->{:?} (force={}) to {} failed: {e:#}", case.source_comp, case.target_comp, case.force, case.target.name()),
 		Err(pi) => return Err(Fail::from_panic("conversion", &pi)),
@@ -144,7 +161,10 @@ fn oracle(case: &Case, obs: &mut Obs) -> Result<(), Fail> {
 	}
 	ensure_prop!(dec.tiles.len() == raw.len(), "recompress:extra-tiles", "{ctx}: output has {} tiles, source {}", dec.tiles.len(), raw.len());
 	// metadata (MBTiles keeps only a fixed set of keys: name and description are among them)
-	if let Some(m) = &case.meta {
+	// (with a harness-written source container the generated layout decides whether and under which
+	// name the document is stored; metadata through containers is C17's subject)
+	let from_memory = !matches!(case.source, Some((t, _)) if t.accepts(case.format, case.source_comp));
+	if let Some(m) = case.meta.as_ref().filter(|_| from_memory) {
 		let want: serde_json::Value = serde_json::from_str(m).unwrap();
 		if case.target == Target::Mbtiles {
 			let (_, meta) = vt::codec::mbtiles::decode(&path).map_err(|e| Fail::new("layout:undecodable", e))?;
@@ -188,7 +208,7 @@ fn main() {
 	let mut check = Check::from_args(
 		"C04",
 		"exploration",
-		"1-5 raw payloads per case from the classes {0 bytes (only between compressed source and compressed output), 1 byte, incompressible 200 B-4 KiB, compressible 10-100 KiB, 70 KiB mixed, tiny} stored in an in-memory source compressed with flate2/brotli directly (3 source compressions) x target compression {keep, none, gzip, brotli} x force flag x 5 target formats (format chosen so that the pair is expressible) x TileJSON document; oracle: independent decoder of the output: declared compression = requested, every tile decoded with the harness's decompressor for the declared compression = raw payload, metadata decodes to the same JSON keys; non-trivial = target differs from the source compression or recompression is forced",
+		"1-5 raw payloads per case from the classes {0 bytes (only between compressed source and compressed output), 1 byte, incompressible 200 B-4 KiB, compressible 10-100 KiB, 70 KiB mixed, tiny} stored in an in-memory source, or in a container of any of the five formats written by the harness's encoder (generated layout: PMTiles leaf directories and internal compressions, sparse versatiles blocks, MBTiles views ...), compressed with flate2/brotli directly (3 source compressions) x target compression {keep, none, gzip, brotli} x force flag x 5 target formats (format chosen so that the pair is expressible) x TileJSON document; oracle: independent decoder of the output: declared compression = requested, every tile decoded with the harness's decompressor for the declared compression = raw payload, metadata decodes to the same JSON keys; non-trivial = target differs from the source compression or recompression is forced",
 	);
 	check.assume("flate2 and brotli crates as independent reference implementations of gzip/brotli");
 	vt::engine::watchdog(3600);
